@@ -442,6 +442,15 @@ pub fn apply<C: Autocomplete + Help>(s: &Sess, e: &Ev) -> (Sess, Vec<CallObs>) {
     (n, calls)
 }
 
+pub fn struct_hash(cli: &CliT) -> u64 {
+    let e = cli.__verif_editor().map(|e| e.__verif_struct_hash()).unwrap_or(0);
+    #[cfg(feature = "history")]
+    let h = cli.__verif_history().__verif_struct_hash();
+    #[cfg(not(feature = "history"))]
+    let h = 0u64;
+    e ^ h.rotate_left(17)
+}
+
 /// Canonical key of a session (DESIGN 3.2)
 #[derive(Clone, Debug, PartialEq, Eq, Hash)]
 pub struct SKey {
@@ -454,6 +463,9 @@ pub struct SKey {
     pub tline: String,
     pub tcol: usize,
     pub pend: u8,
+    /// hash over every field of the real `Editor` and `History` structs (buffers contribute their size only):
+    /// a field added to them by a change is part of the key without the harness knowing its name
+    pub shash: u64,
     /// optional refinement: hash of the one-step behaviour (per event: results, sink bytes, handler
     /// calls, canonical successor). Separates states that the hooks cannot tell apart (state a change
     /// added to the library, e.g. a cache) as soon as the difference shows within one step.
@@ -472,6 +484,7 @@ pub fn skey(s: &Sess) -> SKey {
         tline: s.term.trimmed(),
         tcol: s.term.col,
         pend: s.pend,
+        shash: struct_hash(&s.cli),
         sig: 0,
     }
 }
